@@ -270,6 +270,17 @@ func C17_PolyLong() {
 	rt.Assert(true, "long/polynomial")
 }
 
+// callsOnTwo: two contexts created first, then parsed one after the other:
+// the count of a parse is the count of that parse, whatever else is alive.
+func callsOnTwo(g *Grammar, in []byte) (int, int) {
+	e1, e2 := newEnv(in), newEnv(in)
+	bt := Build(g, nil)
+	root := combinator.Sentence(bt.Root)
+	parsley.Parse(e1.ctx, root)
+	parsley.Parse(e2.ctx, root)
+	return e1.ctx.CallCount(), e2.ctx.CallCount()
+}
+
 // C17_Poly: parser invocations stay within a degree-4 polynomial of the input
 // length, doubling the input multiplies them by at most 16, and the count is
 // the same on every run (all map iteration orders).
@@ -319,6 +330,11 @@ func C17_Poly() {
 	again, res2 := callsOn(g, in)
 	if again != full || res2 != res {
 		rt.Fail("deterministic-count", g.Name+" on "+showInput(in)+": "+itoa(full)+" vs "+itoa(again)+" calls")
+		return
+	}
+	rt.PermuteMaps(false)
+	if c1, c2 := callsOnTwo(g, in); c1 != full || c2 != full {
+		rt.Fail("deterministic-count-two-contexts", g.Name+" on "+showInput(in)+": "+itoa(full)+" calls alone, "+itoa(c1)+" and "+itoa(c2)+" with two contexts alive")
 		return
 	}
 	rt.Assert(true, "polynomial")
